@@ -118,6 +118,7 @@ fn last_panic() -> String {
 
 fn make_check(id: &str) -> Box<dyn core::Check> {
     match id {
+        "SELF" => Box::new(core::SelfCheck),
         "C02" => {
             let c = c02::C02::new();
             c02::register_opcodes(&c.ctx);
@@ -171,6 +172,7 @@ fn main() {
             let i: u64 = a(4).parse().unwrap_or(0);
             println!("{}", c.gen(i, rng::run_seed(seed, c.id(), i), tier_of(a(3))));
         }
+        "selftest-supervisor" => std::process::exit(core::selftest_supervisor()),
         "replay" => {
             let txt = std::fs::read_to_string(a(2)).unwrap_or_default();
             let doc: serde_json::Value = serde_json::from_str(&txt).unwrap_or(serde_json::Value::Null);
